@@ -124,11 +124,14 @@ pub async fn transfer_file_to_remote(
     let touch = mtime.map_or(String::new(), |t| format!(" && touch -d @{t} $'{escaped}'"));
     // `cat` exits 0 at end of input even when the sender died mid-stream, so a
     // successful `cat` does not mean a complete file: publish the staged bytes
-    // only once their count is the size we set out to send.
+    // only once their count is the size we set out to send. And `mv -f FILE DIR`
+    // moves FILE *into* DIR and succeeds: when a directory sits at the destination
+    // path the command must fail instead (the file is not delivered, and no staged
+    // file may end up inside that directory).
     let mut child = tokio::process::Command::new("ssh")
         .arg(host)
         .arg(format!(
-            "cat > $'{tmp_escaped}' && [ \"$(wc -c < $'{tmp_escaped}')\" -eq {file_size} ] && mv -f $'{tmp_escaped}' $'{escaped}'{touch}"
+            "cat > $'{tmp_escaped}' && [ \"$(wc -c < $'{tmp_escaped}')\" -eq {file_size} ] && [ ! -d $'{escaped}' ] && mv -f $'{tmp_escaped}' $'{escaped}'{touch}"
         ))
         .stdin(std::process::Stdio::piped())
         .stdout(std::process::Stdio::null())
